@@ -416,6 +416,7 @@ INT_KERNELS = [
          params=dict(xx="arr", groups="arr", num_groups="int", nodata="num", yy="outf"), ret="yy"),
     # `pixels` (T, Y, X) and `z_pixels` (Y, X) are passed flattened together with their dimensions
     dict(name="do_mean", file="hdc/algo/ops/zonal.py", func="do_mean",
+         defaults={"out_dtype": "np.float32"},
          params=dict(pixels=("arr", 3), z_pixels=("arr", 2), num_zones="int", nodata="num", z_nodata="num", out_dtype="fdtype"),
          ret="result"),
 ]
@@ -430,7 +431,11 @@ def translate_int(cfg, safe=False):
     program + the flag `bad`, see the prelude Hdc/Gen/SafeBase.lean written by py2lean.py)"""
     src = (REPO / cfg["file"]).read_text()
     mod = ast.parse(src)
-    fn = next(n for n in ast.walk(mod) if isinstance(n, ast.FunctionDef) and n.name == cfg["func"])
+    fn = [n for n in ast.walk(mod) if isinstance(n, ast.FunctionDef) and n.name == cfg["func"]][-1]
+    names, want = [a.arg for a in fn.args.args], list(cfg["params"])
+    defaults = {a.arg: ast.unparse(d) for a, d in zip(fn.args.args[len(fn.args.args) - len(fn.args.defaults):], fn.args.defaults)}
+    if names != want or defaults != cfg.get("defaults", {}) or fn.args.vararg or fn.args.kwarg or fn.args.kwonlyargs:
+        raise Unsupported(f"signature changed: def {fn.name}({ast.unparse(fn.args)}) but the translator is configured for ({', '.join(want)}) with defaults {cfg.get('defaults', {})}")
     k = KI(cfg, fn, safe=safe)
     body = k.run()
     if k.checks:
@@ -632,7 +637,7 @@ NUM_KERNELS = [
          consts={}, intcast="F.ofInt", extra="(F : MKFns α)", ret=None, uses="", imports=["Hdc.PyNpT"], translator=KN),
     dict(name="mk_z_score", module="NumMkZ", file=MK_FILE, func="mk_z_score", params=[("s", "int"), ("vs", "num")],
          consts={}, intcast="F.ofInt", extra="(F : MKFns α)", ret=None, uses="", imports=["Hdc.PyNpT"], translator=KN),
-    dict(name="mk_p_value", module="NumMkP", file=MK_FILE, func="mk_p_value", params=[("z", "num")],
+    dict(name="mk_p_value", module="NumMkP", file=MK_FILE, func="mk_p_value", params=[("z", "num")], const_params={"alpha": 0.05},
          consts={"0.5": "F.half"}, extern_consts={"ndtri(0.975)": "F.zcrit"}, intcast="F.ofInt", extra="(F : MKFns α)",
          ret=None, rty="α × Bool", uses="", imports=["Hdc.PyNpT"], translator=KN),
     dict(name="mk_sens_slope", module="NumMkSens", file=MK_FILE, func="mk_sens_slope", params=[("x", "arrnum")],
